@@ -5,7 +5,7 @@ import XmppModel.Prelude.Hex
 `component.Negotiator(addr, secret, false)` (component/component.go) inside the loop of
 `negotiateSession`: write the stream header, read tokens until the peer's stream header (one
 leading processing instruction is allowed), write `<handshake>digest</handshake>`, read the
-acknowledgement.  One call either returns `Ready|Authn` or an error.
+acknowledgement up to its end tag (`d.Skip()`).  One call either returns `Ready|Authn` or an error.
 
 Parameters: the peer script (one item per read of the connection), failing I/O operations by
 index, blocking operations, cancellation of the context (a function of the trace), and which
@@ -21,8 +21,12 @@ inductive Item
   | hdr (id : Bool)
   /-- a `stream:stream` start tag `FromStartElement` rejects -/
   | hdrBad
-  /-- `<handshake/>` -/
+  /-- the complete acknowledgement in one piece: `<handshake/>` or `<handshake></handshake>` -/
   | ack
+  /-- only the start tag `<handshake>` -/
+  | ackOpen
+  /-- an end tag `</handshake>` -/
+  | ackClose
   /-- `<stream:error>…</stream:error>` -/
   | serr
   /-- any other element -/
@@ -59,6 +63,9 @@ inductive Pc
   | writeHs (id : Bool)
   /-- read the acknowledgement -/
   | readAck (id : Bool)
+  /-- `d.Skip()`: read up to the end of the acknowledgement; `stack`: elements opened inside it
+  and not yet closed (`true`: a `<handshake>`, `false`: a `<stream:stream>`) -/
+  | skipAck (stack : List Bool)
   /-- back in `negotiateSession` with `Ready|Authn` and a nil error -/
   | ret
   | blocked (wr : Bool)
@@ -102,8 +109,19 @@ def step (O : Oracle) (c : Conf) : Conf :=
   | .writeHs id => write O c (.readAck id)
   | .readAck id => read O c fun
     | .ack => if id then .ret else .fail .proto
+    | .ackOpen => if id then .skipAck [] else .fail .proto
     | .serr => .fail .streamErr
     | _ => .fail .proto
+  | .skipAck stack => read O c fun
+    | .ackClose =>
+      match stack with
+      | [] => .ret
+      | true :: r => .skipAck r
+      | false :: _ => .fail .proto
+    | .ackOpen => .skipAck (true :: stack)
+    | .hdr _ => .skipAck (false :: stack)
+    | .hdrBad => .skipAck (false :: stack)
+    | _ => .skipAck stack
   | .ret => if O.cancel c.tr then { c with pc := .fail .io } else { c with pc := .done }
   | .blocked wr =>
     if O.cancel c.tr && (if wr then O.dlWr else O.dlRd) then
